@@ -50,7 +50,7 @@ pub fn run() {
                 vec![Step::Connect { to: front, from: None }, Step::Send { bytes: h1::request("GET", "/", "a.io", &[], None), splits: vec![] }, Step::ExpectH1 { count: 1, responses: true }, Step::Done],
             );
             let setup = WorkerSetup { config: worker::server_config(|_| {}), initial: http_state(front, back) };
-            let profile = ChoiceProfile { write_faults: vec![FdClass::Front], read_faults: vec![], max_points_per_class: 8, event_order: false };
+            let profile = ChoiceProfile { write_faults: vec![FdClass::Front], read_faults: vec![], max_points_per_class: 8, event_order: false, ..Default::default() };
             let (mut exec, err) = worker::run_worker(setup, vec![backend, client], vec![MainStep::AwaitPeers], profile, vec![], 120);
             let stats = exec.stats.clone();
             let end = exec.end.clone();
